@@ -44,23 +44,71 @@ pub fn slp_opts(skip: bool, hash: bool) -> slippi::de::Opts {
 
 /// How the bytes are served is an environment choice that must not matter; it is rotated over the
 /// inputs (deterministically, by content hash) so that every check also sees fragmented reads and a
-/// stream that does not start at position 0: 2/6 plain cursor, 1-byte, 7-byte and 4096-byte chunks,
-/// and a reader positioned after 4099 bytes of unrelated data.
+/// stream that does not start at position 0: 2/8 plain cursor, 1-byte, 7-byte and 4096-byte chunks,
+/// a reader positioned after 4099 bytes of unrelated data, and (2/8) a stream one of whose first
+/// 8 / 64 read calls is interrupted.
 pub fn read_slp(b: &[u8], skip: bool, hash: bool) -> Result<Game, Fail> {
 	use crate::env::{EnvReader, PrefixedReader, Sched};
 	let opts = slp_opts(skip, hash);
-	let variant = if std::env::var("VERIF_PLAIN_READS").is_ok() { 0 } else { crate::util::xx(b) % 6 };
+	let plain = std::env::var("VERIF_PLAIN_READS").is_ok();
+	let hv = crate::util::xx(b);
+	let variant = if plain { 0 } else { hv % 8 };
+	if !plain {
+		history_prelude(b, hv, skip, hash);
+	}
 	let r = match variant {
 		2 => catch(|| slippi::read(EnvReader::new(b, Sched::Chunk(1)), Some(&opts))),
 		3 => catch(|| slippi::read(EnvReader::new(b, Sched::Chunk(7)), Some(&opts))),
 		4 => catch(|| slippi::read(EnvReader::new(b, Sched::Chunk(4096)), Some(&opts))),
 		5 => catch(|| slippi::read(PrefixedReader::new(b, 4099), Some(&opts))),
+		// one read call is interrupted (EINTR) and has to be repeated by the caller
+		6 | 7 => {
+			let call = ((hv >> 8) % if variant == 6 { 8 } else { 64 }) as usize;
+			let r = catch(|| slippi::read(EnvReader::new(b, Sched::FailAt(call, std::io::ErrorKind::Interrupted)), Some(&opts)));
+			match r {
+				// giving up on an interrupted call is an error, not a wrong answer: ask again without it
+				Ok(Err(e)) if e.to_string().contains("env: injected fault") => catch(|| slippi::read(Cursor::new(b), Some(&opts))),
+				r => r,
+			}
+		}
 		_ => catch(|| slippi::read(Cursor::new(b), Some(&opts))),
 	};
 	match r {
 		Ok(Ok(g)) => Ok(g),
 		Ok(Err(e)) => Err(Fail::Err(e.to_string())),
 		Err(p) => Err(Fail::Panic(p)),
+	}
+}
+
+/// Two small well-formed replays of unrelated shape (v0.1 and v3.16, Ice Climbers, items), read
+/// before some of the reads below.
+fn prelude_games() -> &'static Vec<Vec<u8>> {
+	static G: std::sync::OnceLock<Vec<Vec<u8>>> = std::sync::OnceLock::new();
+	G.get_or_init(|| {
+		[(0u8, 1u8), (3, 16), (2, 0)]
+			.iter()
+			.map(|v| crate::rec::record(&crate::gen::per_version_replay(*v, crate::rec::Fill::A)).doc.assemble())
+			.collect()
+	})
+}
+
+/// What the calling thread did before a read must not matter either. For 3 in 8 inputs (by content
+/// hash) the read is preceded, on the same thread, by another call into the library: a read of the
+/// first two thirds of the same bytes (which fails part-way), or a complete read of an unrelated
+/// small replay, with the same options. The outcome of the prelude itself is not judged here.
+fn history_prelude(b: &[u8], hv: u64, skip: bool, hash: bool) {
+	let opts = slp_opts(skip, hash);
+	match (hv >> 20) % 8 {
+		0 => {
+			let cut = &b[..b.len() * 2 / 3];
+			let _ = catch(|| slippi::read(Cursor::new(cut), Some(&opts)).map(|_| ()));
+		}
+		k @ (1 | 2) => {
+			let gs = prelude_games();
+			let g = &gs[((hv >> 24) as usize + k as usize) % gs.len()];
+			let _ = catch(|| slippi::read(Cursor::new(&g[..]), Some(&opts)).map(|_| ()));
+		}
+		_ => {}
 	}
 }
 
